@@ -90,6 +90,10 @@ impl Scenario for Hb {
             v.push(json!({"h": h, "server": chatty_frames, "client_at": [], "open_delay_ms": h * 950, "hold": [h * 900, h * 1100]}));
             v.push(json!({"h": h, "server": chatty_frames, "client_at": [], "open_delay_ms": h * 1050, "hold": [h * 900, h * 1100]}));
             v.push(json!({"h": h, "server": [], "client_at": [], "open_delay_ms": h * 950, "hold": [h * 900, h * 1100]}));
+            // ... and for two whole intervals (h .. 3h) while the server keeps sending every 0.9h: its
+            // bytes arrived in time, the rx timer expired meanwhile, and the I/O thread finds both
+            // in one wake-up; the server was never silent
+            v.push(json!({"h": h, "server": chatty_frames, "client_at": [], "hold": [h * 1000, h * 3000]}));
         }
         // heartbeats off: silence is never fatal, nothing is sent
         // the client closes at 3 s, the server never answers and says nothing more: the close is
@@ -249,9 +253,21 @@ impl Scenario for Hb {
         let died = o.io_exit_time_ns.filter(|t| *t < horizon);
         let alive_until = died.unwrap_or(horizon);
         // --- server liveness: reference
+        // (built from the client's own reads; where the I/O thread is kept from running for a
+        // while, from the instants the server's bytes arrived - "receives no byte for 2h" is about
+        // what arrives, not about when the client gets round to reading it)
+        let rx_times: Vec<(u64, usize)> = if p["hold"].is_array() {
+            let open_delay = p["open_delay_ms"].as_u64().unwrap_or(0);
+            let mut v: Vec<(u64, usize)> = vec![(open_delay * MS, 1)];
+            v.extend(p["server"].as_array().unwrap().iter().map(|ev| (ev[0].as_u64().unwrap().max(open_delay) * MS, 1)));
+            v.retain(|(t, _)| *t <= horizon);
+            v
+        } else {
+            o.read_times.clone()
+        };
         let mut last_rx = start;
         let mut expect_death: Option<u64> = None;
-        for (t, _) in o.read_times.iter() {
+        for (t, _) in rx_times.iter() {
             if *t > last_rx + 2 * hn {
                 expect_death = Some(last_rx + 2 * hn);
                 break;
@@ -266,7 +282,7 @@ impl Scenario for Hb {
         match (expect_death, died) {
             (None, Some(d)) => {
                 // tolerated only by the 5 ms fudge: silence of at least 2h - 5 ms before d
-                let r = o.read_times.iter().filter(|(t, _)| *t <= d).map(|(t, _)| *t).max().unwrap_or(start);
+                let r = rx_times.iter().filter(|(t, _)| *t <= d).map(|(t, _)| *t).max().unwrap_or(start);
                 if d - r + 5 * MS < 2 * hn || close_res.as_deref() != Some("Err(MissedServerHeartbeats)") {
                     v.push(("hb:declared-dead-early".into(), format!("connection ended at {} ms ({:?}) although the last inbound byte was read at {} ms (h = {} s)", d / MS, close_res, r / MS, h)));
                 }
@@ -276,7 +292,10 @@ impl Scenario for Hb {
                 if d + 5 * MS < e {
                     v.push(("hb:declared-dead-early".into(), format!("died at {} ms, 2h of silence only complete at {} ms", d / MS, e / MS)));
                 }
-                if d > e + g {
+                // (an I/O thread that was kept from running stamps what it reads when it runs again:
+                // "promptly" then includes the time it was held)
+                let held = p["hold"].as_array().map(|a| (a[1].as_u64().unwrap() - a[0].as_u64().unwrap()) * MS).unwrap_or(0);
+                if d > e + g + held {
                     v.push(("hb:declared-dead-late".into(), format!("died at {} ms, 2h of silence complete at {} ms", d / MS, e / MS)));
                 }
                 if close_res.as_deref() != Some("Err(MissedServerHeartbeats)") {
